@@ -4,6 +4,7 @@ import (
 	"math/big"
 
 	"github.com/mmcloughlin/addchain"
+	"github.com/mmcloughlin/addchain/alg/ensemble"
 	"github.com/mmcloughlin/addchain/alg/opt"
 )
 
@@ -70,6 +71,42 @@ func genC10(g *Gen) {
 		}
 		c10Case(g, c)
 		g.Count("redundant")
+	}
+	// chains with values far beyond a machine word: unoptimised search results for 70-200 bit
+	// targets, as found and with extra redundant sums inserted (some shuffled)
+	ens := ensemble.Ensemble()
+	for i := 0; i < g.pick(40, 300); i++ {
+		n := g.R.Bits(70 + g.R.Intn(130))
+		n.SetBit(n, 0, 1)
+		a := ens[g.R.Intn(len(ens))]
+		if oa, ok := a.(opt.Algorithm); ok {
+			a = oa.Algorithm
+		}
+		var c addchain.Chain
+		var err error
+		if safe(func() { c, err = a.FindChain(n) }) != "" || err != nil || len(c) > 400 {
+			continue
+		}
+		c = cloneInts(c)
+		seen := map[string]bool{}
+		for _, x := range c {
+			seen[x.String()] = true
+		}
+		for extra := g.R.Intn(6); extra > 0; extra-- {
+			s := new(big.Int).Add(c[g.R.Intn(len(c))], c[g.R.Intn(len(c))])
+			if !seen[s.String()] && s.Cmp(c[len(c)-1]) < 0 {
+				seen[s.String()] = true
+				c = append(c, s)
+			}
+		}
+		if g.R.Intn(3) != 0 {
+			last := c[len(c)-1]
+			c = c[:len(c)-1]
+			c19SortInts(c)
+			c = append(c, last)
+		}
+		c10Case(g, c)
+		g.Count("search-big")
 	}
 	// a few invalid inputs (the property says nothing about them; correspondence only)
 	for i := 0; i < 200; i++ {
